@@ -6,8 +6,12 @@
       bhattacharyya_distance,hi_normalized_complement,js,kl,emd,energy_distance,mmd}.py
       (constructor chains down to statistical_kwargs; what _distance_measure passes)
 
-    Part 1  keyword dictionaries and the nine constructor chains
+    The code modelled is /repo at 5423711 (after the fixes 0e07408, fd44d2a, 5423711 of the
+    findings F21, F39, F22); 'approximate' is modelled as it is (finding F23, known).
+
+    Part 1  keyword dictionaries, the nine constructor chains, the public setters
     Part 2  [permutation]: RNG oracle, enumeration branch, re-split, parallel map
+            (+ an explicit model of multiprocessing.Pool's chunked map, [run_parallel])
     Part 3  the four p-value methods, generic over [Arith] (run over Q, proved over R)
     Part 4  MMD: the cached E[k(x,x')] of [_fit] versus the recomputation of [_mmd]  *)
 From Coq Require Import ZArith String List Bool QArith Qreduction.
